@@ -2,6 +2,7 @@ package lua
 
 import (
 	"bufio"
+	"errors"
 	"fmt"
 	"io"
 	"reflect"
@@ -140,19 +141,82 @@ func isArrayKey(v LNumber) bool {
 	return isInteger(v) && v < LNumber(int((^uint(0))>>1)) && v > LNumber(0) && v < LNumber(MaxArrayIndex)
 }
 
-func parseNumber(number string) (LNumber, error) {
-	var value LNumber
-	number = strings.Trim(number, " \t\n")
-	if v, err := strconv.ParseInt(number, 0, LNumberBit); err != nil {
-		if v2, err2 := strconv.ParseFloat(number, LNumberBit); err2 != nil {
-			return LNumber(0), err2
-		} else {
-			value = LNumber(v2)
+// luaSpace is what C's isspace accepts: the blanks allowed around a numeral.
+const luaSpace = " \t\n\v\f\r"
+
+// numeralKind classifies s against the numeral grammar of Lua 5.1: 'd' for decimal digits with
+// an optional fraction (at least one digit in all) and an optional decimal exponent, 'x' for
+// 0x or 0X followed by one or more hexadecimal digits, 0 for everything else.
+func numeralKind(s string) byte {
+	isdec := func(c byte) bool { return '0' <= c && c <= '9' }
+	if len(s) > 2 && s[0] == '0' && (s[1] == 'x' || s[1] == 'X') {
+		for i := 2; i < len(s); i++ {
+			c := s[i]
+			if !(isdec(c) || 'a' <= c && c <= 'f' || 'A' <= c && c <= 'F') {
+				return 0
+			}
 		}
-	} else {
-		value = LNumber(v)
+		return 'x'
 	}
-	return value, nil
+	i, ndigits := 0, 0
+	for ; i < len(s) && isdec(s[i]); i++ {
+		ndigits++
+	}
+	if i < len(s) && s[i] == '.' {
+		for i++; i < len(s) && isdec(s[i]); i++ {
+			ndigits++
+		}
+	}
+	if ndigits == 0 {
+		return 0
+	}
+	if i < len(s) && (s[i] == 'e' || s[i] == 'E') {
+		i++
+		if i < len(s) && (s[i] == '+' || s[i] == '-') {
+			i++
+		}
+		nexp := 0
+		for ; i < len(s) && isdec(s[i]); i++ {
+			nexp++
+		}
+		if nexp == 0 {
+			return 0
+		}
+	}
+	if i != len(s) {
+		return 0
+	}
+	return 'd'
+}
+
+// parseNumber converts a string to a number as Lua 5.1 does: an optionally signed decimal or
+// 0x-hexadecimal numeral, blanks allowed around it. Go's own literal syntax (a leading 0 meaning
+// octal, 0b, 0o, '_' between digits, hexadecimal fractions and exponents, "inf", "nan") is not
+// accepted, so the value never depends on it.
+func parseNumber(number string) (LNumber, error) {
+	number = strings.Trim(number, luaSpace)
+	unsigned := number
+	if len(unsigned) > 0 && (unsigned[0] == '-' || unsigned[0] == '+') {
+		unsigned = unsigned[1:]
+	}
+	var v float64
+	var err error
+	switch numeralKind(unsigned) {
+	case 'd':
+		v, err = strconv.ParseFloat(number, LNumberBit)
+	case 'x':
+		// an integer of any length: ParseFloat rounds a long hexadecimal mantissa correctly
+		v, err = strconv.ParseFloat(number+"p0", LNumberBit)
+	default:
+		return LNumber(0), errors.New("malformed number")
+	}
+	if err != nil {
+		if ne, ok := err.(*strconv.NumError); !ok || ne.Err != strconv.ErrRange {
+			return LNumber(0), err
+		}
+		// out of range: v is the infinity the numeral rounds to
+	}
+	return LNumber(v), nil
 }
 
 func popenArgs(arg string) (string, []string) {
